@@ -39,8 +39,8 @@ CODEC_IDS = {"iso8859-1": 0, "cp1252": 1, "utf-8": 2}
 # the tie: the tie between a hand-transcribed function and its model is the correspondence check, run on every check.  A changed hash is
 # listed in the module-level SOURCE_CHANGES (reset at each translate); tools/ofxv/check.py then re-runs the correspondence and the property
 # search under two more seeds and prints a NOTE (exit 0) when model and code still agree everywhere, or reports as usual otherwise.
-# Only a function that can no longer be hashed at all (moved, replaced by something the translator cannot read) is a hard problem:
-# `header_source_is_pinned = false`, which breaks Props/*/source_is_pinned.v.  Everything REGENERATED (OneOf domains, Integer/String limits,
+# (A helper that was renamed / inlined, so that it can no longer be hashed, is a source change like any other; `header_source_is_pinned`
+# stays in Gen/HeaderGen.v for hard problems, of which there is currently no kind.)  Everything REGENERATED (OneOf domains, Integer/String limits,
 # version tables, the codecs map) stays fail-closed as before; a changed regex pattern / flags switches the run to its deep setting.
 SOURCE_CHANGES = []
 SOURCE_PINS = {
@@ -95,7 +95,7 @@ def source_pins(H, T):
             hashes[k] = ast_hash(f)
         except Exception as e:
             hashes[k] = None
-            problems.append("%s: cannot hash (%r)" % (k, e))
+            changes.append("%s: no longer there / cannot be hashed (%s)" % (k, type(e).__name__))     # renamed or inlined helper: a source change like any other
             continue
         if hashes[k] != SOURCE_PINS.get(k):
             changes.append("%s changed (hash %s, pinned %s)" % (k, hashes[k], SOURCE_PINS.get(k)))
